@@ -118,17 +118,25 @@ impl Builder {
     {
         use super::Inner;
 
-        let mut reader = BufReader::new(reader);
+        let mut reader = reader;
+
+        let prefix = if self.compression_method.is_none() || self.format.is_none() {
+            read_prefix(&mut reader)?
+        } else {
+            Vec::new()
+        };
 
         let compression_method = match self.compression_method {
             Some(compression_method) => compression_method,
-            None => detect_compression_method(&mut reader)?,
+            None => detect_compression_method(&mut &prefix[..])?,
         };
 
         let format = match self.format {
             Some(format) => format,
-            None => detect_format(&mut reader, compression_method)?,
+            None => detect_format(&mut &prefix[..], compression_method)?,
         };
+
+        let reader = BufReader::new(io::Cursor::new(prefix).chain(reader));
 
         let inner = match (format, compression_method) {
             (Format::Sam, None) => Inner::Sam(sam::io::Reader::new(reader)),
@@ -154,6 +162,29 @@ impl Builder {
 
         Ok(Reader(inner))
     }
+}
+
+/// The number of leading bytes of a stream the detectors look at.
+pub(crate) const DETECTION_WINDOW_SIZE: usize = 8 * 1024;
+
+/// A stream whose leading bytes were read ahead.
+pub(crate) type Source<R> = io::Chain<io::Cursor<Vec<u8>>, R>;
+
+/// Reads the first `DETECTION_WINDOW_SIZE` bytes of a stream, or all of it if it is shorter.
+///
+/// A single `read` (and so `BufReader::fill_buf`) can return fewer bytes than a magic number has,
+/// e.g., when reading from a pipe or socket. That is not the end of the stream.
+pub(crate) fn read_prefix<R>(reader: &mut R) -> io::Result<Vec<u8>>
+where
+    R: Read,
+{
+    let mut buf = Vec::new();
+
+    reader
+        .take(DETECTION_WINDOW_SIZE as u64)
+        .read_to_end(&mut buf)?;
+
+    Ok(buf)
 }
 
 pub(crate) fn detect_compression_method<R>(reader: &mut R) -> io::Result<Option<CompressionMethod>>
@@ -217,6 +248,45 @@ where
 #[cfg(test)]
 mod tests {
     use super::*;
+
+    struct OneByteReader<R>(R);
+
+    impl<R> Read for OneByteReader<R>
+    where
+        R: Read,
+    {
+        fn read(&mut self, buf: &mut [u8]) -> io::Result<usize> {
+            let n = buf.len().min(1);
+            self.0.read(&mut buf[..n])
+        }
+    }
+
+    #[test]
+    fn test_build_from_reader_with_short_reads() -> io::Result<()> {
+        use std::io::Write;
+
+        use crate::alignment::io::reader::Inner;
+
+        let mut writer = bgzf::io::Writer::new(Vec::new());
+        writer.write_all(b"BAM\x01\x00\x00\x00\x00\x00\x00\x00\x00")?;
+        let src = writer.finish()?;
+
+        let reader = Builder::default().build_from_reader(OneByteReader(&src[..]))?;
+        assert!(matches!(reader.0, Inner::Bam(_)));
+
+        let reader = Builder::default().build_from_reader(OneByteReader(&b"BAM\x01"[..]))?;
+        assert!(matches!(reader.0, Inner::BamRaw(_)));
+
+        let reader = Builder::default().build_from_reader(OneByteReader(&b"CRAM\x03\x00"[..]))?;
+        assert!(matches!(reader.0, Inner::Cram(_)));
+
+        let mut reader =
+            Builder::default().build_from_reader(OneByteReader(&b"@HD\tVN:1.6\n"[..]))?;
+        assert!(matches!(reader.0, Inner::Sam(_)));
+        assert!(reader.read_header()?.header().is_some());
+
+        Ok(())
+    }
 
     #[test]
     fn test_detect_format() -> io::Result<()> {
